@@ -5,6 +5,7 @@ Operations of a thread program (small tuples):
     ("P", lines, how)        console.print / console.log of user output (how = "seg" | "str" | "log", see lib_live)
     ("K", [(lines, how)…])   with console.capture(): one print per entry
     ("N", (la, ha), (lb, hb), (lc, hc))   with capture(): print a; with capture(): print b; print c   (inner result first)
+    ("E", clear, mode)       console.export_text(clear=…) (mode "t"), export_text(clear=…, styles=True) ("s"), export_html(clear=…) ("h")
     ("U", lines, refresh)    Live.update(renderable yielding `lines`, refresh=…)
     ("R",) refresh   ("S",) start   ("X",) stop   ("V", id, n) Progress.advance
     ("G", npre)              harness barrier: wait until thread 0 has finished its first `npre` operations
@@ -61,6 +62,8 @@ class Scn:
             return "P" + enc_str_list(self.user_lines(op[1], op[2]))
         if k == "K":
             return "K" + "#".join(enc_str_list(self.user_lines(l, h)) for l, h in op[1])
+        if k == "E":
+            return f"E{int(op[1])}{op[2]}"
         if k == "N":
             return "N" + "#".join(enc_str_list(self.user_lines(l, h)) for l, h in op[1:4])
         if k == "U":
@@ -182,6 +185,7 @@ def run_real(scn, chooser, line_mode=False):
     n = len(scn.progs)
     done_ops = [0] * n
     captures = [[] for _ in range(n)]
+    exports = [[] for _ in range(n)]   # per thread: (clear, mode, plain text of what the export returned)
 
     def apply(op):
         k = op[0]
@@ -192,6 +196,12 @@ def run_real(scn, chooser, line_mode=False):
                 for lines, how in op[1]:
                     _print(console, lines, how)
             captures[sched.current()].append(cap.get())
+        elif k == "E":
+            if op[2] == "h":
+                text = html_text(console.export_html(clear=op[1]))
+            else:
+                text = console.export_text(clear=op[1], styles=(op[2] == "s"))
+            exports[sched.current()].append((op[1], op[2], text))
         elif k == "N":
             with console.capture() as outer:
                 _print(console, *op[1])
@@ -263,6 +273,7 @@ def run_real(scn, chooser, line_mode=False):
     res.lock_errors = clock.errors + rlock.errors + llock.errors
     res.exc = dict(sched.exc)
     res.captures = captures
+    res.exports = exports
     res.done_ops = done_ops
     res.console = console
     res.disp = disp
@@ -287,6 +298,15 @@ def run_real(scn, chooser, line_mode=False):
     return res
 
 
+def html_text(doc):
+    """The text inside the <pre> of an export_html document (no styles in these scenarios: no tags inside)."""
+    import html
+    import re
+
+    m = re.search(r"<pre[^>]*>(?:<code>)?(.*?)(?:</code>)?</pre>", doc, flags=re.S)
+    return html.unescape(m.group(1)) if m else "?no-pre?" + doc
+
+
 def _print(console, lines, how):
     if how == "seg":
         console.print(LinesR(lines))
@@ -300,7 +320,7 @@ def _print(console, lines, how):
 
 # ------------------------------------------------------------------ canonical forms
 EVENT_CODES = {"acqL": "aL", "relL": "rL", "acqC": "aC", "relC": "rC", "acqR": "aR", "relR": "rR", "hr": "hr", "h+": "h+", "h-": "h-",
-               "ce": "ce", "pos": "ps", "rst": "rs", "rr": "rr", "ws": "ws", "setr": "sr", "w": "w"}
+               "ce": "ce", "cr": "cr", "cd": "cd", "pos": "ps", "rst": "rs", "rr": "rr", "ws": "ws", "setr": "sr", "w": "w"}
 
 
 def enc_events(events):
@@ -334,4 +354,5 @@ def enc_obs(scn, events):
 def enc_final(scn, res):
     caps = "/".join("!".join(enc_tokens(term.tokenize(c)) for c in cs) for cs in res.captures)
     exp = "-" if res.export is None else enc_tokens(term.tokenize(res.export))
-    return "#".join([caps, exp, enc_shape(res.shape), str(res.hooks), "-" if res.started is None else str(int(res.started))])
+    exps = "/".join("!".join(enc_tokens(term.tokenize(t)) for _c, _m, t in es) for es in res.exports)
+    return "#".join([caps, exp, enc_shape(res.shape), str(res.hooks), "-" if res.started is None else str(int(res.started)), exps])
